@@ -52,9 +52,65 @@ class C05(SessionCheck):
             for tr in trs:
                 extras = [['urn:example:extra:1.0'], ['urn:example:extra:1.0', 'urn:example:other:2.0?x=1'], []][(i + len(tr)) % 3]
                 out.append({'kind': 'connect', 'sc': {'transport': tr, 'profile': pf, 'extras': extras, 'server11': (i % 3 != 1)}})
+        # arrival timing of the server's <hello> over a real SSH transport: never sent, sent in pieces that complete well inside the
+        # timeout, and dripped for ever without its end (connect must fail within the timeout, not hang)
+        for what in ('silent', 'slow-complete', 'drip'):
+            out.append({'kind': 'hello-timing', 'sc': {'transport': 'ssh', 'profile': 'default', 'what': what, 'timeout': 1.2}})
         return out
 
+    def run_hello_timing(self, case):
+        import time
+        from impl import e2e, fakeserver as FS
+        sc = case['sc']
+        srv = e2e.make_server(dict(sc), None, send_hello=False)
+        head = '<hello xmlns="%s"><capabilities><capability>%s</capability>' % (FS.BASE_NS, FS.B10)
+        tail = '</capabilities><session-id>7</session-id></hello>'
+
+        def serve():
+            try:
+                if sc['what'] == 'slow-complete':
+                    text = (head + tail).encode() + b']]>]]>'
+                    for i in range(0, len(text), 40):
+                        srv.send_bytes(text[i:i + 40])
+                        time.sleep(0.03)
+                    while not srv.closed and srv._recv():
+                        pass
+                elif sc['what'] == 'drip':
+                    srv.send_bytes(head.encode())
+                    i = 0
+                    while not srv.closed and i < 400:
+                        srv.send_bytes(b'<capability>urn:example:cap:%d</capability>' % i)
+                        i += 1
+                        time.sleep(0.15)
+                else:
+                    t_end = time.time() + 30
+                    while not srv.closed and time.time() < t_end:
+                        time.sleep(0.05)
+            except Exception:
+                pass
+            finally:
+                srv.close()
+                srv.done.set()
+        srv.serve = serve
+        res = {}
+        try:
+            st, val, dt = FS.run_with_timeout(lambda: e2e.connect(srv, sc, timeout=sc['timeout']), sc['timeout'] + 8)
+            res['connect'] = st if st != 'exc' else 'exc:' + type(val).__name__
+            res['dt'] = dt
+            if st == 'ok':
+                res['sid'] = val.session_id
+                try:
+                    val._session.close()
+                except Exception:
+                    pass
+        finally:
+            srv.cleanup()
+        return res
+
     def run_impl(self, case):
+        if case.get('kind') == 'hello-timing':
+            self.stats['hello_timing'] = self.stats.get('hello_timing', 0) + 1
+            return self.run_hello_timing(case)
         if case.get('kind') != 'connect':
             return SessionCheck.run_impl(self, case)
         from impl import e2e, fakeserver as FS
@@ -93,21 +149,23 @@ class C05(SessionCheck):
         return res
 
     def model_lines(self, case):
-        if case.get('kind') == 'connect':
+        if case.get('kind') in ('connect', 'hello-timing'):
             return []
         return SessionCheck.model_lines(self, case)
 
     def model_obs(self, case, outs):
-        if case.get('kind') == 'connect':
+        if case.get('kind') in ('connect', 'hello-timing'):
             return None
         return SessionCheck.model_obs(self, case, outs)
 
     def compare(self, case, io, mo):
-        if case.get('kind') == 'connect':
+        if case.get('kind') in ('connect', 'hello-timing'):
             return None
         return SessionCheck.compare(self, case, io, mo)
 
     def nontrivial(self, case, io):
+        if case.get('kind') == 'hello-timing':
+            return True
         if case.get('kind') == 'connect':
             return io.get('connect') == 'ok'
         return SessionCheck.nontrivial(self, case, io)
@@ -147,6 +205,18 @@ class C05(SessionCheck):
         return None
 
     def oracle(self, case, io):
+        if case.get('kind') == 'hello-timing':
+            sc = case['sc']
+            if sc['what'] == 'slow-complete':
+                if io.get('connect') != 'ok' or str(io.get('sid')) != '7':
+                    return ('C05:slow-hello-rejected', 'a <hello> arriving in pieces well inside the timeout gave %s' % io.get('connect'))
+                return None
+            if not str(io.get('connect', '')).startswith('exc:'):
+                return ('C05:connect-hangs', 'no complete <hello> ever arrived (%s server), connect(timeout=%.1f) gave %s after %.1f s' % (
+                    sc['what'], sc['timeout'], io.get('connect'), io.get('dt', -1)))
+            if io.get('dt', 0) > sc['timeout'] + 3.5:
+                return ('C05:connect-hangs', 'connect(timeout=%.1f) against a %s server failed only after %.1f s' % (sc['timeout'], sc['what'], io['dt']))
+            return None
         if case.get('kind') == 'connect':
             return self.oracle_connect(case, io)
         info = case.get('info') or {}
